@@ -128,3 +128,10 @@ PROPS.update({
             "floors": {"quick": {"distinct_nontrivial": 50, "obs.trees_checked": 1000, "obs.histories_checked": 10000, "obs.loco_sim_ended_with_err": 50, "obs.consist_sim_ended_with_err": 50},
                        "thorough": {"distinct_nontrivial": 2000, "obs.trees_checked": 40000}}},
 })
+
+PROPS["C20"] = {"level": "exploration",
+    "technique": "runtime monitor: invariants on getters and serialized private fields after every call of random setter sequences (all side-effect options, all known/unknown patterns, loads with redundant mass data); rejected calls must leave getter results unchanged",
+    "level_text": "Tens of thousands of random setter sequences over components and locomotives; after each call the consistency invariants and the option-specific side effects are checked, rejected calls are checked for half-application; consist and train roll-ups are compared with sums; held on all observed sequences.",
+    "level_note": "Trusted: serde field names of the private mass fields; the harness's statement of each option's documented side effect (harness/src/mon/mass.rs). The pyo3-only mass/specific getters are not observed (cannot be linked); the underlying fields are.",
+    "floors": {"quick": {"distinct_nontrivial": 200, "obs.component_invariants_checked": 20000, "obs.loco_invariants_checked": 10000, "obs.loco_rejected_calls": 2000, "obs.consists": 1000, "obs.trains_built": 500},
+               "thorough": {"distinct_nontrivial": 10000, "obs.loco_invariants_checked": 500000}}}
